@@ -104,6 +104,16 @@ class StmtMixin(object):
 
     def bind_target(self, st, target, value, acc):
         if isinstance(target, ast.Name):
+            cc_top = getattr(self, "cur_contract_top", None)
+            declared = cc_top.locals.get(target.id) if (cc_top is not None and cc_top.locals and not self.in_spec) else None
+            if declared is not None and value is not POISON and getattr(value, "z", None) is not None \
+                    and value.kind is None and value.cls is None and self.cur_fid == self.cur_fid_top:
+                # declared local type (contract option `locals`): a checked cast of a value of unknown static type
+                ok = self.type_pred(value.z, declared)
+                self.oblige(st, "type", self.auto_label(target, "local"), ok,
+                            note="local %s holds a %s (declared in the contract)" % (target.id, declared))
+                st.assume(ok)
+                value = self.typed(value.z, declared)
             st.env[target.id] = value
             return st
         if isinstance(target, (ast.Tuple, ast.List)):
@@ -771,10 +781,26 @@ class StmtMixin(object):
             if cur is None or cur is POISON:
                 h.env.pop(name, None)
                 continue
+            cc_top = getattr(self, "cur_contract_top", None)
+            declared = (cc_top.locals.get(name) if cc_top is not None else None)
+            if declared is not None:
+                # the contract declares the type of this local (e.g. "opt:tuple:any" for `selected = None ... = (a, b)`)
+                z = u.fresh_val("loop_" + name)
+                nv = self.typed(z, declared)
+                h.assume(self.type_pred(z, declared))
+                h.env[name] = nv
+                continue
             if cur.z is None:
+                if cur.kind in ("pytuple", "pylist") and name in _assigned_names(node.body):
+                    # a python-side value (tuple literal) that the loop body re-assigns cannot keep its entry value
+                    raise Undecided("loop re-assigns local %r holding a tuple: declare its type with locals={...}" % name)
                 continue
             z = u.fresh_val("loop_" + name)
-            nv = SV(z, cur.kind, cls=cur.cls, elem=cur.elem)
+            if cur.kind == "none":
+                # None before the loop says nothing about later iterations
+                nv = SV(z)
+            else:
+                nv = SV(z, cur.kind, cls=cur.cls, elem=cur.elem)
             if cur.kind in ("int", "bool", "str", "enum", "ref"):
                 h.assume(self.kind_pred(nv))
             h.env[name] = nv
@@ -893,8 +919,14 @@ class StmtMixin(object):
             cur = h.env.get(name)
             if cur is None or cur is POISON:
                 h.env.pop(name, None)
-            elif cur.z is not None:
-                h.env[name] = SV(u.fresh_val("dry_" + name), cur.kind, cls=cur.cls, elem=cur.elem)
+            else:
+                cc_top = getattr(self, "cur_contract_top", None)
+                declared = (cc_top.locals.get(name) if cc_top is not None else None)
+                if declared is not None:
+                    h.env[name] = self.typed(u.fresh_val("dry_" + name), declared)
+                elif cur.z is not None:
+                    h.env[name] = SV(u.fresh_val("dry_" + name)) if cur.kind == "none" else \
+                        SV(u.fresh_val("dry_" + name), cur.kind, cls=cur.cls, elem=cur.elem)
         for key in list(h.heap):
             h.heap[key] = u.fresh("D" + key.replace("$", "_"), h.heap[key].sort())
         for g in list(h.ghost):
